@@ -56,6 +56,16 @@ Proof.
 Qed.
 Print Assumptions c03_subclass_instances_are_references.
 
+(* ... and so is every frozenset / slice that is not built only from plain values (it holds an object somewhere) *)
+Theorem c03_containers_holding_objects_are_references : forall mk v,
+  dumpable v = false -> (forall l, v <> PTuple l) -> (forall k, v <> POther k) -> byref mk v.
+Proof.
+  intros mk v D T O. destruct v; try discriminate; try (repeat split; assumption || reflexivity).
+  - exfalso. now apply (T l).
+  - exfalso. now apply (O k).
+Qed.
+Print Assumptions c03_containers_holding_objects_are_references.
+
 (* 2'. exact tuples, mixing values and references at any nesting: sending the tuple is sending its items one
        after the other and tupling what arrives *)
 Theorem c03_tuple_mixed : forall P idp, idp_enc P idp -> forall from l w,
